@@ -154,6 +154,24 @@ def kinds():
             evs += ["acc", f"rx {i} " + nodegen.cer("stranger.x", "4", n(), n())]
         return evs + ["tick"]
 
+    def conn_cer_rejected(N):
+        # a configured peer whose CER has nothing in common with the node: answered 5010, the peer then hangs up / the CER
+        # timer closes the connection
+        evs = ["start fail"]
+        for i in range(N):
+            evs += ["acc", f"rx {i} " + nodegen.cer("peer1.x", "99", n(), n()), f"eof {i}" if i % 2 == 0 else "adv 4"]
+        return evs + ["tick"]
+
+    def pair_write_fail(N):
+        # N pairs of connections, both of a pair failing on a write in the same pass of the I/O loop (two notices at once)
+        evs = ["start fail"]
+        for i in range(N):
+            a, b = 2 * i, 2 * i + 1
+            evs += ["acc", f"rx {a} " + nodegen.cer("peer1.x", "4", n(), n()), "acc", f"rx {b} " + nodegen.cer("peer2.x", "4", n(), n()),
+                    f"wr {a} hard", f"wr {b} hard", f"rxm {a}:" + nodegen.dwr(n(), n(), "peer1.x") + f" {b}:" + nodegen.dwr(n(), n(), "peer2.x"),
+                    "tick", "tick"]
+        return evs + ["tick"]
+
     def conn_timeout(N):
         evs = ["start fail"]
         for i in range(N):
@@ -228,7 +246,7 @@ def kinds():
             "rejected_req": rejected_req, "dup_reject": dup_reject, "dwr_in": dwr_in, "dwr_in_sparse": dwr_in_sparse, "dwr_out": dwr_out,
             "outbound_req": outbound_req, "outbound_req_timeout": outbound_req_timeout, "conn_ok": conn_ok, "inbound_req_raise": inbound_req_raise, "thread_req": thread_req,
             "thread_req_raise": thread_req_raise, "conn_req_answered": conn_req_answered, "conn_node_closes": conn_node_closes, "conn_unknown": conn_unknown,
-            "conn_timeout": conn_timeout, "conn_already": conn_already, "second_conn_req": second_conn_req,
+            "conn_timeout": conn_timeout, "conn_cer_rejected": conn_cer_rejected, "pair_write_fail": pair_write_fail, "conn_already": conn_already, "second_conn_req": second_conn_req,
             "stop_forced": stop_forced, "stop_unanswered": stop_unanswered, "stop_newcomers": stop_newcomers, "dial_no_address": dial_no_address, "dial_refused": dial_refused,
             "dial_async_fail": dial_async_fail, "dial_rejected": dial_rejected, "dial_established": dial_established}
 
@@ -251,7 +269,7 @@ def final(lines: list[str]):
 
 
 def run(res: Result, tier: str, seed: int):
-    res.rule = ("23 kinds of completed transaction / connection attempt, each repeated N times (N = 1, 10 quick; 1, 10, 100 thorough; "
+    res.rule = ("25 kinds of completed transaction / connection attempt, each repeated N times (N = 1, 10 quick; 1, 10, 100 thorough; "
                 "a 1000-run for inbound requests in thorough) on one node, ending with every request answered and every "
                 "connection ended; oracle: every table size, the open-socket count and the live-worker count at the end are the "
                 "same for every N (apart from the fixed-size retransmission window; the peers' statistics windows stay within their documented bounds: deque bound, maximum age of the time slots); real vs model on SIZE/RES")
